@@ -18,9 +18,18 @@ import (
 	spb "google.golang.org/genproto/googleapis/rpc/status"
 )
 
+// respHandler is where the read loop delivers the responses of one call.
+type respHandler struct {
+	ch chan *goatorepo.Rpc
+	// done is closed once nobody will read from ch any more (the call was
+	// unregistered or the connection failed), so that the read loop never
+	// blocks on a call that has gone.
+	done chan struct{}
+}
+
 type RpcMultiplexer struct {
 	rw       types.RpcReadWriter
-	handlers map[uint64]chan *goatorepo.Rpc
+	handlers map[uint64]*respHandler
 
 	ctx    context.Context
 	cancel context.CancelFunc
@@ -35,7 +44,7 @@ type RpcMultiplexer struct {
 func NewRpcMultiplexer(rw types.RpcReadWriter) *RpcMultiplexer {
 	rm := &RpcMultiplexer{
 		rw:       rw,
-		handlers: make(map[uint64]chan *goatorepo.Rpc),
+		handlers: make(map[uint64]*respHandler),
 		codec:    encoding.GetCodecV2(proto.Name),
 	}
 
@@ -62,8 +71,8 @@ func (rm *RpcMultiplexer) closeError(err error) {
 
 	if err != nil {
 		rm.rErr = err
-		for id, ch := range rm.handlers {
-			close(ch)
+		for id, h := range rm.handlers {
+			close(h.done)
 			delete(rm.handlers, id)
 		}
 	}
@@ -83,8 +92,9 @@ func (rm *RpcMultiplexer) CallUnaryMethod(
 	streamId := atomic.AddUint64(&rm.streamCounter, 1)
 
 	respChan := make(chan *goatorepo.Rpc, 1)
+	done := make(chan struct{})
 
-	rm.registerHandler(streamId, respChan)
+	rm.registerHandler(streamId, &respHandler{ch: respChan, done: done})
 	defer rm.unregisterHandler(streamId)
 
 	rpc := goatorepo.Rpc{
@@ -99,35 +109,41 @@ func (rm *RpcMultiplexer) CallUnaryMethod(
 		return nil, err
 	}
 
+	var resp *goatorepo.Rpc
+
 	select {
-	case resp, ok := <-respChan:
-		if !ok {
+	case resp = <-respChan:
+	case <-done:
+		// A response delivered before the connection failed still counts.
+		select {
+		case resp = <-respChan:
+		default:
 			return nil, fmt.Errorf("respChan closed")
 		}
-		for _, sh := range statsHandlers {
-			headers, _ := internal.ToMetadata(resp.GetHeader().Headers)
-
-			sh.HandleRPC(ctx, &stats.InHeader{
-				Client:     true,
-				FullMethod: header.Method,
-				Header:     headers,
-			})
-		}
-		if resp.Status != nil {
-			return nil, status.FromProto(&spb.Status{
-				Code:    resp.Status.Code,
-				Message: resp.Status.Message,
-				Details: resp.Status.Details,
-			}).Err()
-		}
-		if resp.Body != nil {
-			return resp.Body, nil
-		}
-		return nil, fmt.Errorf("malformed response: no body or status")
-
 	case <-ctx.Done():
 		return nil, ctx.Err()
 	}
+
+	for _, sh := range statsHandlers {
+		headers, _ := internal.ToMetadata(resp.GetHeader().Headers)
+
+		sh.HandleRPC(ctx, &stats.InHeader{
+			Client:     true,
+			FullMethod: header.Method,
+			Header:     headers,
+		})
+	}
+	if resp.Status != nil {
+		return nil, status.FromProto(&spb.Status{
+			Code:    resp.Status.Code,
+			Message: resp.Status.Message,
+			Details: resp.Status.Details,
+		}).Err()
+	}
+	if resp.Body != nil {
+		return resp.Body, nil
+	}
+	return nil, fmt.Errorf("malformed response: no body or status")
 }
 
 // NewStreamReadWriter returns a new goat.RpcReadWriter which will read and
@@ -144,7 +160,8 @@ func (rm *RpcMultiplexer) NewStreamReadWriter(
 	streamId := atomic.AddUint64(&rm.streamCounter, 1)
 
 	respChan := make(chan *goatorepo.Rpc, 1)
-	rm.registerHandler(streamId, respChan)
+	done := make(chan struct{})
+	rm.registerHandler(streamId, &respHandler{ch: respChan, done: done})
 
 	teardown := func() {
 		rm.unregisterHandler(streamId)
@@ -153,14 +170,22 @@ func (rm *RpcMultiplexer) NewStreamReadWriter(
 	rw := internal.NewFnReadWriter(
 		func(ctx context.Context) (*goatorepo.Rpc, error) {
 			select {
-			case rpc, ok := <-respChan:
-				if !ok {
-					if err := rm.readErrorIfDone(); err != nil {
-						return nil, err
-					}
-					return nil, fmt.Errorf("respChan closed")
-				}
+			case rpc := <-respChan:
 				return rpc, nil
+			case <-done:
+				// Responses delivered before the connection failed still count.
+				select {
+				case rpc := <-respChan:
+					return rpc, nil
+				default:
+				}
+				if err := rm.readErrorIfDone(); err != nil {
+					return nil, err
+				}
+				if err := ctx.Err(); err != nil {
+					return nil, err
+				}
+				return nil, fmt.Errorf("respChan closed")
 			case <-ctx.Done():
 				return nil, ctx.Err()
 			}
@@ -193,30 +218,38 @@ func (rm *RpcMultiplexer) readLoop() error {
 
 func (rm *RpcMultiplexer) handleResponse(rpc *goatorepo.Rpc) {
 	rm.mutex.Lock()
-	defer rm.mutex.Unlock()
+	h, ok := rm.handlers[rpc.GetId()]
+	rm.mutex.Unlock()
 
-	ch, ok := rm.handlers[rpc.GetId()]
 	if !ok {
 		// TODO: getting log lines from here after cancelling streams
 		log.Error().Msgf("Mux: unhandled Rpc %d", rpc.GetId())
 		return
 	}
-	ch <- rpc
+
+	// Deliver without holding the registry lock: a call which has stopped
+	// reading (cancelled, finished, or sent more than it expected) needs that
+	// lock to unregister itself, and must not wedge the whole connection.
+	select {
+	case h.ch <- rpc:
+	case <-h.done:
+		log.Error().Msgf("Mux: dropping Rpc %d for a call which has gone", rpc.GetId())
+	}
 }
 
-func (rm *RpcMultiplexer) registerHandler(id uint64, c chan *goatorepo.Rpc) {
+func (rm *RpcMultiplexer) registerHandler(id uint64, h *respHandler) {
 	rm.mutex.Lock()
 	defer rm.mutex.Unlock()
 
-	rm.handlers[id] = c
+	rm.handlers[id] = h
 }
 
 func (rm *RpcMultiplexer) unregisterHandler(id uint64) {
 	rm.mutex.Lock()
 	defer rm.mutex.Unlock()
 
-	if ch, ok := rm.handlers[id]; ok {
-		close(ch)
+	if h, ok := rm.handlers[id]; ok {
+		close(h.done)
 	}
 
 	delete(rm.handlers, id)
